@@ -1296,6 +1296,119 @@ for _i, _m in enumerate(_MODS + [FU]):
     VARIANTS.append(V(f'G-loc-{_i:02d}', 'E', ALL, _m, None, r'\A.*\Z', _localise_attrs, flags=re.S, note='attributes of self that only set-up methods assign are bound to locals at the top of each method that reads them twice'))
 
 
+# ---------------------------------------------------------------------- every local that is not a parameter renamed (and, second family, a statement added so that the function is not the recorded one up to renaming)
+def _rename_locals(pad):
+    def f(m):
+        import ast as _ast
+
+        src = m.group(0)
+        tree = _ast.parse(src)
+        k = [0]
+
+        def outer_funcs(t):
+            out = []
+
+            def rec(node, infn):
+                for c in _ast.iter_child_nodes(node):
+                    if isinstance(c, (_ast.FunctionDef, _ast.AsyncFunctionDef)) and not infn:
+                        out.append(c)
+                        rec(c, True)
+                    else:
+                        rec(c, infn)
+
+            rec(t, False)
+            return out
+
+        for fn in outer_funcs(tree):
+            params = {a.arg for a in _ast.walk(fn) if isinstance(a, _ast.arg)}
+            globs = {nm for g in _ast.walk(fn) if isinstance(g, _ast.Global) for nm in g.names}
+            inner = {x.name for x in _ast.walk(fn) if isinstance(x, (_ast.FunctionDef, _ast.AsyncFunctionDef, _ast.ClassDef)) and x is not fn}
+            imported = {(a.asname or a.name).split('.')[0] for x in _ast.walk(fn) if isinstance(x, (_ast.Import, _ast.ImportFrom)) for a in x.names}
+            stored = {x.id for x in _ast.walk(fn) if isinstance(x, _ast.Name) and isinstance(x.ctx, (_ast.Store, _ast.Del))} | {h.name for h in _ast.walk(fn) if isinstance(h, _ast.ExceptHandler) and h.name}
+            for old in sorted(stored - params - globs - inner - imported):
+                if old.startswith('__'):
+                    continue
+                new = old + '_rn'
+                for x in _ast.walk(fn):
+                    if isinstance(x, _ast.Name) and x.id == old:
+                        x.id = new
+                    if isinstance(x, _ast.ExceptHandler) and x.name == old:
+                        x.name = new
+                    if isinstance(x, _ast.Nonlocal):
+                        x.names = [new if nm == old else nm for nm in x.names]
+                k[0] += 1
+            if pad:
+                i = 1 if fn.body and isinstance(fn.body[0], _ast.Expr) and isinstance(fn.body[0].value, _ast.Constant) and isinstance(fn.body[0].value.value, str) else 0
+                fn.body.insert(i, _ast.Pass())
+        return (_ast.unparse(_ast.fix_missing_locations(tree)) + '\n') if k[0] else src
+
+    return f
+
+
+for _i, _m in enumerate(_MODS + [FU]):
+    VARIANTS.append(V(f'G-lrn-{_i:02d}', 'E', ALL, _m, None, r'\A.*\Z', _rename_locals(False), flags=re.S, note='every local that is not a parameter is renamed consistently'))
+    VARIANTS.append(V(f'G-lrp-{_i:02d}', 'E', ALL, _m, None, r'\A.*\Z', _rename_locals(True), flags=re.S, note='every local renamed and a `pass` added at the top of every function (the function is no longer the recorded one up to renaming: locals are matched one by one)'))
+
+
+# ---------------------------------------------------------------------- private attributes renamed across the package
+def _rename_attrs(which):
+    """which: None = every private instance attribute, else a tuple of names"""
+
+    def f(root):
+        import ast as _ast
+        import glob as _glob
+
+        files = _glob.glob(str(root / 'src' / 'mpservice' / '**' / '*.py'), recursive=True)
+        trees = {p: _ast.parse(open(p).read()) for p in files}
+        if which is None:
+            defs = {x.name for t in trees.values() for x in _ast.walk(t) if isinstance(x, (_ast.FunctionDef, _ast.AsyncFunctionDef, _ast.ClassDef))}
+            stored = {x.attr for t in trees.values() for x in _ast.walk(t) if isinstance(x, _ast.Attribute) and isinstance(x.ctx, _ast.Store) and isinstance(x.value, _ast.Name) and x.value.id == 'self'}
+            strs = {x.value for t in trees.values() for x in _ast.walk(t) if isinstance(x, _ast.Constant) and isinstance(x.value, str)}
+            plain = {x.id for t in trees.values() for x in _ast.walk(t) if isinstance(x, _ast.Name)} | {k.arg for t in trees.values() for x in _ast.walk(t) if isinstance(x, _ast.Call) for k in x.keywords if k.arg}
+            names = {a for a in stored if a.startswith('_') and not a.startswith('__') and a not in defs and a not in strs and a not in plain}
+        else:
+            names = set(which)
+        n = 0
+        for p, t in trees.items():
+            ch = False
+            for x in _ast.walk(t):
+                if isinstance(x, _ast.Attribute) and x.attr in names:
+                    x.attr = x.attr.rstrip('_') + '_ren' + ('_' if x.attr.endswith('_') else '')
+                    ch = True
+                    n += 1
+            if ch:
+                open(p, 'w').write(_ast.unparse(t) + '\n')
+        return None if n else 'no such attribute'
+
+    return f
+
+
+VARIANTS.append(V('G-atr-00', 'E', ALL, '*', None, '', _rename_attrs(None), note='every private instance attribute renamed across the package'))
+for _i, _a in enumerate(['_q_in', '_q_out', '_batch_size', '_future_', '_workers', '_uid_to_futures', '_pipeline_notfull', '_lids_lock', '_not_full', '_not_empty', '_head', '_stopped', '_tasks', '_logger_queue_', '_child_ended_', '_threads', '_servlets', '_capacity', '_input_buffer', '_pending_requests', '_spare_lids', '_num_suppliers', '_lock', '_to_shutdown', '_collector_thread_'], 1):
+    VARIANTS.append(V(f'G-atr-{_i:02d}', 'E', ALL, '*', None, '', _rename_attrs((_a,)), note=f'attribute `{_a}` renamed across the package'))
+
+
+# ---------------------------------------------------------------------- a class renamed across the package
+def _rename_word(old, new):
+    def f(root):
+        import glob as _glob
+
+        n = 0
+        for p in _glob.glob(str(root / 'src' / 'mpservice' / '**' / '*.py'), recursive=True):
+            src = open(p).read()
+            new_src = re.sub(rf'\b{old}\b', new, src)
+            if new_src != src:
+                open(p, 'w').write(new_src)
+                n += 1
+        return None if n else 'no such name'
+
+    return f
+
+
+for _i, _c in enumerate(['_SimpleThreadQueue', '_SimpleProcessQueue', '_Pipe', 'EagerBatcher', 'Parmapper', 'ProcessServlet', 'IterableQueue', 'SingleLane', 'Buffer', 'AsyncBuffer', 'Fork', 'ServerProcess', 'RemoteTraceback', 'SequentialServlet', 'EnsembleServlet', 'SwitchServlet', 'Header', 'Batcher', 'ManagedMemoryBlock' , 'MemoryBlock']):
+    VARIANTS.append(V(f'G-cls-{_i:02d}', 'E', ALL, '*', None, '', _rename_word(_c, _c + 'Renamed'), note=f'class `{_c}` renamed across the package'))
+
+
 # ---------------------------------------------------------------------- values bound to a temporary before they are put / returned / yielded
 def _bind_temps(kind):
     def f(m):
